@@ -57,6 +57,12 @@ struct Conn {
     last_acked_t: u64,
     probes: Vec<(u64, Space)>,
     closed: bool,
+    confirmed: bool,
+    consecutive_ptos: u32,
+    last_pto_instant: Option<u64>,
+    /// times of the last two distinct instants at which an ack-eliciting 1-RTT packet was sent
+    last_ae_tx: u64,
+    prev_ae_tx: u64,
 }
 
 #[derive(Default)]
@@ -173,9 +179,41 @@ impl Monitor for C09 {
                 if *probe {
                     c.probes.push((t, *space));
                     cx.feature("pto_probe");
+                    // (d) PTO back-off: the k-th consecutive expiry without any ACK in between
+                    // must not come earlier than (srtt + max(4 rttvar, 1 ms)) * 2^k after the
+                    // last ack-eliciting transmission (max_ack_delay left out: lenient)
+                    if *space == Space::App && c.confirmed && c.last_pto_instant != Some(t) {
+                        let base = if c.last_ae_tx == t { c.prev_ae_tx } else { c.last_ae_tx };
+                        let k = c.consecutive_ptos.min(8);
+                        if let (Some(m), true) = (c.metrics.values().next(), base > 0 && base < t) {
+                            let p = m.smoothed_rtt + (4 * m.rtt_variance).max(GRANULARITY_US);
+                            let expected = p << k;
+                            let got = t - base;
+                            cx.summary.count("c09.pto_expiries_timed", 1);
+                            if k >= 1 {
+                                cx.summary.count("c09.pto_backoff_steps_checked", 1);
+                                cx.summary.max("c09.max_consecutive_ptos", (k + 1) as i64);
+                            }
+                            if got + GRANULARITY_US < expected && c.metrics.len() == 1 {
+                                cx.violate(
+                                    "C09",
+                                    "pto-fired-early",
+                                    format!(
+                                        "ep{ep} c{conn}: probe timeout #{} in a row fired {got}us after the last ack-eliciting packet; with srtt {}us, rttvar {}us the period must be at least {expected}us (doubling per consecutive expiry)",
+                                        k + 1, m.smoothed_rtt, m.rtt_variance
+                                    ),
+                                    json!({"ep": ep, "conn": conn, "k": k, "interval_us": got, "expected_us": expected, "metrics": format!("{m:?}")}),
+                                );
+                            }
+                        }
+                        c.consecutive_ptos += 1;
+                        c.last_pto_instant = Some(t);
+                    }
                 }
             }
             Evt::AckRange { space, lo, hi, .. } => {
+                // any acknowledgement may reset the back-off
+                c.consecutive_ptos = 0;
                 let s = &mut c.spaces[space.idx()];
                 for (pn, st) in s.sent.range_mut(*lo..=*hi) {
                     match st.res {
@@ -293,7 +331,22 @@ impl Monitor for C09 {
                 s.sent.clear();
             }
             Evt::Closed(_) => c.closed = true,
+            Evt::Handshake { status } => {
+                if *status == "confirmed" {
+                    c.confirmed = true;
+                }
+            }
             _ => {}
+        }
+    }
+
+    fn on_tx(&mut self, _cx: &mut Ctx, p: &Pkt) {
+        if p.space == Space::App && p.ack_eliciting() {
+            let c = self.conns.entry((p.ep, p.conn)).or_default();
+            if p.t > c.last_ae_tx {
+                c.prev_ae_tx = c.last_ae_tx;
+                c.last_ae_tx = p.t;
+            }
         }
     }
 
